@@ -1555,7 +1555,14 @@ impl Runner for ServiceRunner {
                     ("pong", [seq, addr]) => {
                         let base = self.insts[&x].reqs[k - 1].contact.enr().map(|e| e.seq()).unwrap_or(0);
                         let seq = if let Some(d) = seq.strip_prefix('+') { base + d.parse::<u64>().unwrap_or(0) } else { seq.parse::<u64>().unwrap_or(0) };
-                        let Some(a) = parse_addr(addr) else { return noop(out) };
+                        // `self4` / `self6`: the socket the local record advertises right now (a confirmation)
+                        let a = match *addr {
+                            "self4" => self.insts[&x].discv5.local_enr().udp4_socket().map(SocketAddr::V4),
+                            "self6" => self.insts[&x].discv5.local_enr().udp6_socket().map(SocketAddr::V6),
+                            _ => parse_addr(addr),
+                        };
+                        let Some(a) = a else { return noop(out) };
+                        if addr.starts_with("self") { stats.bump("s.c17.vote-for-advertised-socket"); }
                         let Some(port) = NonZeroU16::new(a.port()) else { return noop(out) };
                         let id = self.insts[&x].reqs[k - 1].id.clone();
                         let resp = Response { id, body: ResponseBody::Pong { enr_seq: seq, ip: a.ip(), port } };
@@ -2364,7 +2371,10 @@ fn gen_c17(rng: &mut Rng, ops: &mut Vec<String>, stats: &mut Stats) {
         let c = rng.below(100);
         if c < 70 {
             let v6 = mode == "ip6" || (mode == "dual" && rng.chance(1, 2));
-            let addr = if v6 {
+            let addr = if rng.chance(1, 5) {
+                // a confirmation of what the record advertises right now
+                if v6 { "self6" } else { "self4" }
+            } else if v6 {
                 if rng.chance(3, 4) { lead6 } else { *rng.pick(&c6) }
             } else if rng.chance(3, 4) {
                 lead4
